@@ -70,7 +70,7 @@ def run(ctx):
             continue
         for spin_dep in ((False, True) if kind in SPIN_DEP else (False,)):
             try:
-                trial, wd, desc = trials.make(kind, rng, norb, ne, **wf.make_opts(kind))
+                trial, wd, desc = trials.make(kind, rng, norb, ne, **wf.make_opts(kind, rng))
                 sec, psi = trials.state(kind, trial, wd, desc)
                 ham, plain = trials.make_ham(rng, norb, nchol=2, spin_dependent=spin_dep)
                 H = fock.hamiltonian(sec, plain["h0"], plain["h1"], plain["chol"])
@@ -129,7 +129,7 @@ def run(ctx):
         if kind in ("CISD", "CISD_THC"):
             ne = (1, 1)
         try:
-            trial, wd, desc = trials.make(kind, rng, norb, ne, **wf.make_opts(kind))
+            trial, wd, desc = trials.make(kind, rng, norb, ne, **wf.make_opts(kind, rng))
             sec, psi = trials.state(kind, trial, wd, desc)
             ham, plain = trials.make_ham(rng, norb, nchol=2)
             H = fock.hamiltonian(sec, plain["h0"], plain["h1"], plain["chol"])
